@@ -60,6 +60,9 @@ func c09Plan(tp *Tape, env *Env) *Plan {
 		Extra: map[string]any{"with_faults": withFaults, "neighbours": tp.Int(1, 3, "neighbours"), "global_draws": tp.Int(1, 50, "globaldraws"), "clock_offset_s": tp.Int(1, 1000000, "clockoffset"), "burst_every": tp.Int(1, 5, "burstevery")}}
 }
 
+// c09BetweenOps, when set, runs between any two ops of the traced runner (execution P6).
+var c09BetweenOps func()
+
 // c09Trace runs the plan once and returns the canonical trace.
 func c09Trace(plan *Plan, bubble bool, midCall func(), st *Stats) (string, *Violation) {
 	var sb strings.Builder
@@ -95,6 +98,9 @@ func c09Trace(plan *Plan, bubble bool, midCall func(), st *Stats) (string, *Viol
 			}
 		}
 		for i := range plan.Ops {
+			if c09BetweenOps != nil && i > 0 {
+				c09BetweenOps()
+			}
 			r := d.apply(&plan.Ops[i])
 			if r != nil {
 				fmt.Fprintf(&sb, "%d %s|%s|%s|%v|%s", i, r.Kind, r.Node, r.Text, r.Tags, r.Err)
@@ -274,9 +280,33 @@ func c09Exec(plan *Plan, st *Stats) *Violation {
 			st.fault("neighbour_mid_call")
 		}
 	}
+	// P6: between any two ops of this runner another seeded runner is created, takes a step and is left alive -
+	// also right after this runner reported its end and before it is restored
+	{
+		var others []*dynRunner
+		k := 0
+		c09BetweenOps = func() {
+			if nd, err := newDyn(&neighbour.World, false); err == nil {
+				nd.apply(&neighbour.Ops[k%len(neighbour.Ops)])
+				k++
+				others = append(others, nd)
+			}
+		}
+		t, _ = c09Trace(plan, false, nil, nil)
+		c09BetweenOps = nil
+		for _, o := range others {
+			o.h.Close()
+		}
+		if v := cmp("C09.between", "with another seeded runner created and stepped between any two of its steps", t); v != nil {
+			return v
+		}
+		if st != nil {
+			st.fault("runner_created_between_steps")
+		}
+	}
 	if st != nil {
 		st.inc("cases", 1)
-		st.inc("executions", int64(6+nb))
+		st.inc("executions", int64(7+nb))
 		st.fault("repeat")
 		st.fault("after_neighbours")
 		st.fault("global_rand_draws")
